@@ -5,7 +5,7 @@ import os
 
 from ..extract import AnalysisError, VERIF
 from ..facts import walk, strip, callee
-from ..symx import SymEval, Poly, Unsupported, app, var, num, subst
+from ..symx import SymEval, Poly, Unsupported, app, var, num, subst, vkey
 from ..trace import Tracer
 
 LEVEL = "other"
@@ -119,6 +119,7 @@ def run(ck, F, tier):
         selfv = ("struct", "AR4JACode", {"rate": ("variant", r), "k": var("self.k")})
         tr = Tracer(F, r"sparse::SparseMatrix::\w+", mode="int", inline=lambda p: F.private_helper(p, AR + "::", keep=re.escape(AR) + r"::(pi|m)"))
         tr.unroll_literals = True
+        tr.inline_statics = True      # a protograph given as a static table of (block row, block column, content) is read entry by entry
         env = {}
         tr.bind(hb.params[0], selfv, env)
         try:
@@ -196,7 +197,7 @@ def run(ck, F, tier):
     ck.floor("A2", "insert/toggle call sites over the three rates", nsites_total, 15 + 23 + 39)
 
     # ---- A4: tables and index shapes ------------------------------------------------
-    evs = SymEval(F, mode="int", inline_statics=True)
+    evs = SymEval(F, mode="int", inline_statics=True, inline=lambda p: F.private_helper(p, AR + "::", keep=re.escape(AR) + r"::(pi|m|theta|phi|h)"))
     try:
         theta = arr(evs.eval(F.body("codes::ccsds::THETA_K").value, {}))
         phi = arr(evs.eval(F.body("codes::ccsds::PHI_K").value, {}))
@@ -218,7 +219,7 @@ def run(ck, F, tier):
                     "26 rows equal the pinned reference" if not diff else "row k=%d: found %s reference %s" % (diff[0][0] + 1, diff[0][1], diff[0][2]))
     # index shapes
     SELF, K, Iv, J = var("self"), var("k"), var("i"), var("j")
-    e0 = SymEval(F, mode="int")
+    e0 = SymEval(F, mode="int", inline=lambda p: F.private_helper(p, AR + "::", keep=re.escape(AR) + r"::(pi|m|theta|phi|h)"))
     tb = F.body(AR + "::theta")
     env = {}
     e0.bind(tb.params[0], K, env)
@@ -279,12 +280,31 @@ def run(ck, F, tier):
         e = ins[0]
         T = var("codes::ccsds::C2_CIRCULANTS")
         lo = e.loops
-        shape = (len(lo) == 4 and lo[0][0] == "enumerate" and lo[0][2] == ("elems", T) and lo[1][0] == "enumerate"
-                 and lo[2][0] == "iter" and lo[3][0] == "range" and lo[3][2] == num(0) and lo[3][3] == num(511) and not lo[3][4])
+        # four nested levels, however they are spelled (for loops, flat_map chains, a map repackaging (row, col, shift)):
+        # block rows of the table (enumerated), block columns of that row (enumerated), shifts of that block, j in 0..511
+        def level(l):
+            """(kind, index variable or None, iterated sequence, element hint)"""
+            if l[0] == "enumerate":
+                return ("seq", l[1], l[2], l[3] if len(l) > 3 else None)
+            if l[0] == "iter":
+                d, idxv = l[2], None
+                while isinstance(d, tuple) and d and d[0] in ("map", "enumerate"):
+                    if d[0] == "enumerate":
+                        idxv = (l[1] + "_idx") if isinstance(l[1], str) else None
+                    d = d[1]
+                return ("seq", idxv, d, l[1] if isinstance(l[1], str) else None)
+            if l[0] == "range":
+                return ("range", l[1], (l[2], l[3], l[4]), None)
+            return ("?", None, None, None)
+        lv = [level(l) for l in lo]
+        shape = len(lv) == 4 and [x[0] for x in lv] == ["seq", "seq", "seq", "range"] and lv[0][2] == ("elems", T) and lv[0][1] and lv[1][1] and \
+            lv[3][2] == (num(0), num(511), False)
         if shape:
-            rown, coln, circn, jn = lo[0][1], lo[1][1], lo[2][1], lo[3][1]
-            # element provenance: the column loop iterates the row's element, the circ loop the block's element
-            blk_ok = "C2_CIRCULANTS" in repr(lo[1][2]) and "C2_CIRCULANTS" in repr(lo[2][2])
+            rown, coln, jn = lv[0][1], lv[1][1], lv[3][1]
+            # element provenance: the column level iterates the row's element, the shift level the block's element
+            ROWEL = app("elem", T, var(lv[0][3])) if lv[0][3] else None
+            blk_ok = ROWEL is not None and lv[1][2] == ("elems", ROWEL) and lv[1][3] is not None and \
+                lv[2][2] == ("elems", app("elem", ROWEL, var(lv[1][3])))
             Rr, Cc, Jj = var(rown), var(coln), var(jn)
             row, col = e.args[1], e.args[2]
             rest = col - num(511) * Cc
@@ -295,11 +315,12 @@ def run(ck, F, tier):
                 a = mono[0][0] if len(mono) == 1 else None
                 if a and a[:2] == ("f", "mod") and c == 1 and a[3] == ("P", num(511)):
                     inner = a[2][1]
-                    ok_col = (inner - Jj).atoms() and all(x[:2] == ("f", "elem") for x in (inner - Jj).atoms()) and len((inner - Jj).t) == 1
+                    shift = inner - Jj
+                    ok_col = len(shift.t) == 1 and all(x[:2] == ("f", "elem") and x[2] == vkey(app("elem", ROWEL, var(lv[1][3]))) for x in shift.atoms()) if ROWEL is not None else False
             ok = shape and blk_ok and ok_row and bool(ok_col)
-            why = "insert(%r, %r) in loops %s" % (row, col, [l[0] for l in lo])
+            why = "insert(%r, %r) over table rows > columns > shifts > j in 0..511 [levels %s, provenance %s, row %s, col %s]" % (row, col, shape, blk_ok, ok_row, bool(ok_col))
         else:
-            why = "loop nest is not enumerate(rows) > enumerate(cols) > circs > 0..511: %r" % (lo,)
+            why = "loop nest is not rows > cols > shifts > 0..511 of the circulant table: %r" % ([x[:2] for x in lv],)
     ck.inst("A5", "c2:expansion", ok, ins[0].site if ins else cb.span, why + " ; required insert(row*511 + j, col*511 + (j + circ) mod 511)")
     for cname, want in (("ROW_BLOCKS", 2), ("COL_BLOCKS", 16), ("BLOCK_WEIGHT", 2)):
         got = None
